@@ -321,9 +321,9 @@ namespace Givaro
     inline Modular<Log16>::Rep& Modular<Log16>::axpy
     (Rep& r, const Rep& a, const Rep& b, const Rep& c) const
     {
-        (r)=  _tab_mul[(a) + (b)];
-        Rep tmp = _tab_addone[(c) - (r)];
-        (r)=  _tab_mul[(r) + tmp ];
+        const Rep ab =  _tab_mul[(a) + (b)]; // r may be the same object as c
+        Rep tmp = _tab_addone[(c) - ab];
+        (r)=  _tab_mul[ab + tmp ];
         return r;
     }
 
@@ -342,8 +342,8 @@ namespace Givaro
     inline Modular<Log16>::Rep& Modular<Log16>::axmy
     (Rep& r, const Rep& a, const Rep& b, const Rep& c) const
     {
-        __GIVARO_ZPZ16_LOG_MULSUB(r,_p,a,b,c);
-        return r;
+        Rep t; __GIVARO_ZPZ16_LOG_MUL(t,_p,a,b); // r may be the same object as c
+        return sub(r,t,c);
     }
 
     // r <- r-a*b
